@@ -46,7 +46,7 @@ func (f *{{.FieldType}}) Read(r io.ReadSeeker, pg parquet.Page) error {
 	}
 
 	v := make([]{{removeStar .TypeName}}, f.Values()-len(f.vals))
-	err = binary.Read(rr, binary.LittleEndian, &v)
+	err = binary.Read(rr, binary.LittleEndian, v)
 	f.vals = append(f.vals, v...)
 	return err
 }
